@@ -1124,6 +1124,24 @@ func (m *Machine) doCall(st *State, fr *Frame, call ssa.CallInstruction) bool {
 	for _, a := range common.Args {
 		args = append(args, m.eval(st, fr, a))
 	}
+	// a method value (p.f passed around as a func): the wrapper's single call is the real callee, the bound
+	// receiver its first argument
+	if callee != nil && strings.HasPrefix(callee.Synthetic, "bound method wrapper") {
+		if fv := m.eval(st, fr, common.Value); fv.K == KFunc && len(fv.T) >= 1 {
+			var target *ssa.Function
+			for _, b := range callee.Blocks {
+				for _, in := range b.Instrs {
+					if c, ok := in.(*ssa.Call); ok && target == nil {
+						target = c.Call.StaticCallee()
+					}
+				}
+			}
+			if target != nil {
+				callee = target
+				args = append([]AV{fv.T[0]}, args...)
+			}
+		}
+	}
 	val, isVal := call.(ssa.Value)
 	bind := func(s *State, res AV) {
 		if isVal {
@@ -1201,7 +1219,7 @@ func (m *Machine) doCall(st *State, fr *Frame, call ssa.CallInstruction) bool {
 				nf.Vals[p] = args[i]
 			}
 		}
-		if fvAV := m.eval(st, fr, common.Value); fvAV.K == KFunc {
+		if fvAV := m.eval(st, fr, common.Value); fvAV.K == KFunc && fvAV.Fn == callee {
 			for i, fv := range callee.FreeVars {
 				if i < len(fvAV.T) {
 					nf.Vals[fv] = fvAV.T[i]
